@@ -2,6 +2,7 @@ package encoder
 
 import (
 	"bytes"
+	"context"
 	"encoding"
 	"encoding/base64"
 	"encoding/json"
@@ -505,6 +506,10 @@ func AppendMarshalJSON(ctx *RuntimeContext, code *Opcode, b []byte, v interface{
 			return AppendNull(ctx, b), nil
 		}
 		stdctx := ctx.Option.Context
+		if stdctx == nil {
+			// Marshal without a context: the method is not handed a nil context
+			stdctx = context.Background()
+		}
 		if ctx.Option.Flag&FieldQueryOption != 0 {
 			stdctx = SetFieldQueryToContext(stdctx, code.FieldQuery)
 		}
@@ -558,6 +563,10 @@ func AppendMarshalJSONIndent(ctx *RuntimeContext, code *Opcode, b []byte, v inte
 			return AppendNull(ctx, b), nil
 		}
 		stdctx := ctx.Option.Context
+		if stdctx == nil {
+			// Marshal without a context: the method is not handed a nil context
+			stdctx = context.Background()
+		}
 		if ctx.Option.Flag&FieldQueryOption != 0 {
 			stdctx = SetFieldQueryToContext(stdctx, code.FieldQuery)
 		}
